@@ -96,7 +96,7 @@ theorem multispace0_complete (ws rest : Bytes) (hw : ws.all isSpace = true) (hr 
 
 /-- `spacelike` never fails and never panics: a slot cannot make a template be rejected -/
 theorem spacelike_total (inp : Bytes) : ∃ rest, spacelike inp = .ok rest () := by
-  obtain ⟨r, vs, h, _⟩ := many0_total good_spaceStep inp
+  obtain ⟨r, vs, h, _⟩ := many0_total lgood_spaceStep inp
   exact ⟨r, by simp [spacelike_eq, value, pmap, h]⟩
 
 /-- soundness: what `spacelike` skips is a prefix of the input (nothing else is touched) -/
